@@ -326,6 +326,8 @@ def main():
     ap.add_argument('--limit', type=int, default=0)
     ap.add_argument('--out', default=os.path.join(tempfile.gettempdir(), 'mutation_sweep.json'))
     ap.add_argument('--list', action='store_true')
+    ap.add_argument('--start', type=int, default=0, help='resume: skip the first N selected mutants')
+    ap.add_argument('--skip-props', nargs='*', default=[], help='do not run these (expensive) checks; mutants left without a check are dropped')
     a = ap.parse_args()
     af = anchored_functions()
     props = a.props or sorted(af)
@@ -350,6 +352,10 @@ def main():
     if a.limit:
         rnd.shuffle(jobs)
         jobs = jobs[:a.limit]
+    jobs = jobs[a.start:]
+    if a.skip_props:
+        jobs = [(f, q, k, [p for p in ps if p not in a.skip_props], src) for f, q, k, ps, src in jobs]
+        jobs = [j for j in jobs if j[3]]
     print('%d functions, %d mutants selected' % (len(fmap), len(jobs)))
     if a.list:
         for f, q, k, ps, src in jobs:
